@@ -201,6 +201,9 @@ func TestManyLoops(t *testing.T) {
 		"for %s = 1:%d { println(%s) }",
 		"for %d { println(\"tick\") }",
 		"for %s = %d { error(\"top level error\") }",
+		// an inner loop left through an error that is caught while the outer loop (same environment) goes on
+		"for %s = %d { println(catch(for lv = 3 { if lv == 1 { error(\"inner\") } }).err, %s) }",
+		"for %s = %d { r = catch(for lv = 1:4 { for lv2 = 2 { if lv2 == 1 { error(\"inner\", lv) } } }); println(r.err) }",
 	}
 	pbt.Check(t, 600, 60000, func(rt_ *rapid.T) {
 		n := rapid.IntRange(3, 40).Draw(rt_, "nloops")
@@ -221,8 +224,12 @@ func TestManyLoops(t *testing.T) {
 				c.Inputs = append(c.Inputs, fmt.Sprintf(exits[5], v, cnt+1, v))
 			case 6:
 				c.Inputs = append(c.Inputs, fmt.Sprintf(exits[6], cnt))
-			default:
+			case 7:
 				c.Inputs = append(c.Inputs, fmt.Sprintf(exits[7], v, cnt))
+			case 8:
+				c.Inputs = append(c.Inputs, fmt.Sprintf(exits[8], v, cnt, v))
+			default:
+				c.Inputs = append(c.Inputs, fmt.Sprintf(exits[9], v, cnt))
 			}
 		}
 		if !pbt.KnownOpen(kLoopVarScope) {
